@@ -73,6 +73,7 @@ def parseOp (ws : List String) : Option Op :=
     let rows ← if rows == "-" then some none else (parseLabels rows).map some
     let trees ← if trees == "-" then some none else (parseDocs trees).map some
     some (.dsread (← d.toNat?) (← parseLabels taxa) rows trees)
+  | ["taadd", n, t] => do some (.taadd (← n.toNat?) (← t.toNat?))
   | _ => none
 
 /-- split the token list at `;` -/
